@@ -134,6 +134,12 @@ func sameLoad(a, b ssa.Value) bool {
 		if ok1 && ok2 && fa.Field == fb.Field && fa.X == fb.X {
 			return true
 		}
+		// s[i] vs s[i]: same index value over the same slice expression
+		ia, ok1 := ua.X.(*ssa.IndexAddr)
+		ib, ok2 := ub.X.(*ssa.IndexAddr)
+		if ok1 && ok2 && canon(ia.Index) == canon(ib.Index) && (ia.X == ib.X || canon(ia.X) == canon(ib.X) || sameLoad(ia.X, ib.X)) {
+			return true
+		}
 	}
 	return false
 }
@@ -234,7 +240,70 @@ func nonZeroDivisor(in ssa.Instruction, d ssa.Value) bool {
 			}
 		}
 	}
+	// d = [int64](min(len(s), k>0)) or len(s): non-zero when a dominating fact says len(s) != 0
+	if sl := lenDerived(d); sl != nil && !isLenDerivedRecursion {
+		isLenDerivedRecursion = true
+		defer func() { isLenDerivedRecursion = false }()
+		for _, b := range in.Parent().Blocks {
+			for _, i2 := range b.Instrs {
+				c, ok := i2.(*ssa.Call)
+				if !ok {
+					continue
+				}
+				if bi, ok := c.Call.Value.(*ssa.Builtin); ok && bi.Name() == "len" && len(c.Call.Args) == 1 &&
+					(canon(c.Call.Args[0]) == canon(sl) || sameLoad(c.Call.Args[0], sl)) {
+					if nonZeroDivisor(in, c) {
+						return true
+					}
+				}
+			}
+		}
+	}
 	return false
+}
+
+var isLenDerivedRecursion bool
+
+// lenDerived: d is len(s), or min(len(s), positive constants...), possibly converted; returns s.
+func lenDerived(d ssa.Value) ssa.Value {
+	for {
+		if cv, ok := d.(*ssa.Convert); ok {
+			d = cv.X
+			continue
+		}
+		break
+	}
+	c, ok := d.(*ssa.Call)
+	if !ok {
+		return nil
+	}
+	bi, ok := c.Call.Value.(*ssa.Builtin)
+	if !ok {
+		return nil
+	}
+	switch bi.Name() {
+	case "len":
+		if len(c.Call.Args) == 1 {
+			return c.Call.Args[0]
+		}
+	case "min":
+		var s ssa.Value
+		for _, a := range c.Call.Args {
+			if k, ok := a.(*ssa.Const); ok {
+				if r, ok := constRat(k); ok && r.Sign() > 0 {
+					continue
+				}
+				return nil
+			}
+			x := lenDerived(a)
+			if x == nil || s != nil {
+				return nil
+			}
+			s = x
+		}
+		return s
+	}
+	return nil
 }
 
 func collectPanicSites(w *World, f *ssa.Function) []panicSite {
@@ -467,23 +536,23 @@ func parallelIndexSites(w *World, f *ssa.Function) []panicSite {
 
 // c09Triage: sites confirmed by reading; one line of reason each. Key: function|class|desc[#n].
 var c09Triage = map[string]string{
-	"(*x/evm/keeper.compassHandoverAttester).Execute|assert|type assertion to *types.Message_CompassHandover":                 "constructed only in routerAttester's type-switch case for this very action type",
-	"(*x/evm/keeper.submitLogicCallAttester).Execute|assert|type assertion to *types.Message_SubmitLogicCall":                 "constructed only in routerAttester's type-switch case for this very action type",
-	"(*x/evm/keeper.updateValsetAttester).Execute|assert|type assertion to *types.Message_UpdateValset":                       "constructed only in routerAttester's type-switch case for this very action type",
-	"(*x/evm/keeper.uploadSmartContractAttester).Execute|assert|type assertion to *types.Message_UploadSmartContract":         "constructed only in routerAttester's type-switch case for this very action type",
-	"(*x/evm/keeper.uploadUserSmartContractAttester).Execute|assert|type assertion to *types.Message_UploadUserSmartContract": "constructed only in routerAttester's type-switch case for this very action type",
-	"(*x/evm/keeper.updateValsetAttester).attest|assert|type assertion to *types.Message":                                     "messages of the turnstone queue pass the queue's static type check (*types.Message) at Put",
-	"(x/evm/keeper.Keeper).routerAttester|assert|type assertion to *types.Message":                                            "messages of the turnstone queue pass the queue's static type check (*types.Message) at Put",
-	"(x/evm/keeper.msgSender).SendValsetMsgForChain|assert|type assertion to *types.Message":                                  "messages of the turnstone queue pass the queue's static type check (*types.Message) at Put",
-	"(x/evm/keeper.Keeper).validatorBalancesAttester|assert|type assertion to *types.ValidatorBalancesAttestation":            "messages of the balances queue pass the queue's static type check at Put",
-	"(x/evm/keeper.msgAssigner).PickValidatorForMessage|div|integer % by non-constant":                                        "divisor is min(len(assignable), 5) after the len == 0 early return, hence >= 1",
-	"(x/metrix/keeper.Keeper).OnConsensusMessageAttested|narrow|Int.Uint64()":                                                 "difference of two block heights after the HandledAt >= AssignedAt and HandledAt <= current height guards",
-	"(x/metrix/keeper.Keeper).updateTelemetry|narrow|Int.Int64()":                                                             "execution time is a median of block distances bounded by the block height",
-	"(x/metrix/keeper.Keeper).updateTelemetry|narrow|Int.Int64()#2":                                                           "the fee metric is never written by any runtime path (no recordPatch sets fee); it stays zero",
-	"(x/paloma/keeper.Keeper).CheckChainVersion$1|panic|explicit panic":                                                       "the deliberate version gate named in the property",
-	"(x/valset/keeper.Keeper).isNewSnapshotWorthy|div|LegacyDec.QuoInt":                                                       "loop body runs only for validators of the snapshot, whose TotalShares is the positive sum of their bonded tokens",
-	"(x/valset/keeper.Keeper).isNewSnapshotWorthy|div|LegacyDec.QuoInt#2":                                                     "loop body runs only for validators of the snapshot, whose TotalShares is the positive sum of their bonded tokens",
-	"(x/valset/keeper.Keeper).isNewSnapshotWorthy|narrow|LegacyDec.MustFloat64()":                                             "absolute difference of two ratios in [0,1]",
+	"(*x/evm/keeper.compassHandoverAttester).Execute|assert|type assertion to *types.Message_CompassHandover":                                                        "constructed only in routerAttester's type-switch case for this very action type",
+	"(*x/evm/keeper.submitLogicCallAttester).Execute|assert|type assertion to *types.Message_SubmitLogicCall":                                                        "constructed only in routerAttester's type-switch case for this very action type",
+	"(*x/evm/keeper.updateValsetAttester).Execute|assert|type assertion to *types.Message_UpdateValset":                                                              "constructed only in routerAttester's type-switch case for this very action type",
+	"(*x/evm/keeper.uploadSmartContractAttester).Execute|assert|type assertion to *types.Message_UploadSmartContract":                                                "constructed only in routerAttester's type-switch case for this very action type",
+	"(*x/evm/keeper.uploadUserSmartContractAttester).Execute|assert|type assertion to *types.Message_UploadUserSmartContract":                                        "constructed only in routerAttester's type-switch case for this very action type",
+	"(*x/evm/keeper.updateValsetAttester).attest|assert|type assertion to *types.Message":                                                                            "messages of the turnstone queue pass the queue's static type check (*types.Message) at Put",
+	"(x/evm/keeper.Keeper).routerAttester|assert|type assertion to *types.Message":                                                                                   "messages of the turnstone queue pass the queue's static type check (*types.Message) at Put",
+	"(x/evm/keeper.msgSender).SendValsetMsgForChain|assert|type assertion to *types.Message":                                                                         "messages of the turnstone queue pass the queue's static type check (*types.Message) at Put",
+	"(x/evm/keeper.Keeper).validatorBalancesAttester|assert|type assertion to *types.ValidatorBalancesAttestation":                                                   "messages of the balances queue pass the queue's static type check at Put",
+	"(x/metrix/keeper.Keeper).OnConsensusMessageAttested|narrow|Int.Uint64()":                                                                                        "difference of two block heights after the HandledAt >= AssignedAt and HandledAt <= current height guards",
+	"(x/metrix/keeper.Keeper).updateTelemetry|narrow|Int.Int64()":                                                                                                    "execution time is a median of block distances bounded by the block height",
+	"(x/metrix/keeper.Keeper).updateTelemetry|narrow|Int.Int64()#2":                                                                                                  "the fee metric is never written by any runtime path (no recordPatch sets fee); it stays zero",
+	"(x/paloma/keeper.Keeper).CheckChainVersion$1|panic|explicit panic":                                                                                              "the deliberate version gate named in the property",
+	"(x/valset/keeper.Keeper).isNewSnapshotWorthy|div|LegacyDec.QuoInt":                                                                                              "loop body runs only for validators of the snapshot, whose TotalShares is the positive sum of their bonded tokens",
+	"(x/valset/keeper.Keeper).isNewSnapshotWorthy|div|LegacyDec.QuoInt#2":                                                                                            "loop body runs only for validators of the snapshot, whose TotalShares is the positive sum of their bonded tokens",
+	"(*x/evm/types.ValidatorBalancesAttestation).Keccak256WithSignedMessage|parallel-index|slice indexed by the induction variable of a loop over a different slice": "the only constructor, CheckExternalBalancesForChain, appends to ValAddresses and HexAddresses in the same statement group (lockstep); the message type is not user-submittable",
+	"(x/valset/keeper.Keeper).isNewSnapshotWorthy|narrow|LegacyDec.MustFloat64()":                                                                                    "absolute difference of two ratios in [0,1]",
 }
 
 func rulesC09(w *World, o *Out) {
